@@ -183,20 +183,44 @@ Section Rev.
         [destruct (N.eqb c (k_fcls k)); cbn; rewrite ?H2; reflexivity | reflexivity].
   Qed.
 
+  (* a method the refactored program finds under a name that is not new is the image of the method the original
+     program finds *)
+  Lemma find_meth_bwd cd c m d' : find_c (p_classes P) c = Some cd ->
+    find_m (new_methods k (c_name cd)) m = None ->
+    (forall b, find_m (new_methods k b) m = None) ->
+    find_meth (p_classes P') (tC k cd) m = Some d' ->
+    exists d on, find_meth (p_classes P) cd m = Some d /\ d' = tM k on d /\
+                 ok_body k on (m_body d) = true /\ unused_body k on (m_body d) = true.
+  Proof.
+    intros Hc Hn Hnb H. unfold find_meth in H |- *. rewrite find_m_tC in H.
+    destruct (find_m (c_methods cd) m) as [d|] eqn:Eo.
+    - inversion H; subst d'. do 2 eexists. split; [reflexivity|]. split; [reflexivity|].
+      split; [eapply method_ok; eauto | eapply method_unused; eauto].
+    - rewrite Hn in H. change (c_base (tC k cd)) with (c_base cd) in H.
+      destruct (c_base cd) as [b|]; [|discriminate]. unfold P' in H. rewrite find_c_tP in H.
+      destruct (find_c (p_classes P) b) as [bd|] eqn:Eb; [|discriminate]. cbn [option_map] in H.
+      rewrite find_m_tC in H. destruct (find_m (c_methods bd) m) as [d|] eqn:Em.
+      + inversion H; subst d'. do 2 eexists. split; [reflexivity|]. split; [reflexivity|].
+        split; [eapply method_ok; eauto | eapply method_unused; eauto].
+      + rewrite Hnb in H. discriminate.
+  Qed.
+
   (* --- calls ------------------------------------------------------------------------------------ *)
   Lemma construct_bsim ex' ex : bsim_ex ex' ex ->
     forall c vs s r, construct P' ex' c vs s = Done r -> okr r (construct P ex c vs s).
   Proof.
     intros L c vs s r H. unfold construct in *. unfold P' in H. rewrite find_c_tP in H.
     destruct (find_c (p_classes P) c) as [cd|] eqn:Ec; [|discriminate]. cbn [option_map] in H.
-    rewrite find_m_tC in H. destruct (find_m (c_methods cd) init_name) as [d|] eqn:Em.
-    - cbn in H. pose proof (method_ok k P Hside _ _ _ _ Ec Em) as Hok.
-      pose proof (method_unused _ _ _ _ Ec Em) as Hu.
+    destruct (find_meth (p_classes (tP k P)) (tC k cd) init_name) as [d'|] eqn:Em'.
+    - destruct (find_meth_bwd cd c init_name d' Ec (new_methods_init k P Hside _)
+                  (new_methods_init k P Hside) Em') as [d [on [Em [-> [Hok Hu]]]]].
+      rewrite Em. cbn in H.
       destruct (m_body d) as [b|]; [|discriminate]. cbn in H.
       destruct (m_static d); [discriminate|].
       eapply bind_okr; [exact H | intros [v s1] E; eapply run_code_bsim; eauto |].
       intros [v s1] E H2. left. exact H2.
-    - rewrite (new_methods_init k P Hside) in H. left. exact H.
+    - destruct (find_meth (p_classes P) cd init_name) as [d|] eqn:Em; [|left; exact H].
+      destruct (find_meth_fwd k P Hside _ _ _ _ Ec Em) as [on [E' _]]. unfold P' in Em'. congruence.
   Qed.
 
   Lemma run_body_bsim ex' ex : bsim_ex ex' ex ->
@@ -215,10 +239,11 @@ Section Rev.
     intros L o m vs s r Hn H. unfold call_method in *.
     destruct (class_of (fst s) o) as [c|]; [|discriminate]. unfold P' in H. rewrite find_c_tP in H.
     destruct (find_c (p_classes P) c) as [cd|] eqn:Ec; [|discriminate]. cbn [option_map] in H.
-    rewrite find_m_tC in H. destruct (find_m (c_methods cd) m) as [d|] eqn:Em.
-    - cbn in H. destruct (m_static d); [discriminate|].
-      eapply run_body_bsim; eauto; [eapply method_ok; eauto | eapply method_unused; eauto].
-    - rewrite new_methods_unused in H by assumption. discriminate.
+    destruct (find_meth (p_classes (tP k P)) (tC k cd) m) as [d'|] eqn:Em'; [|discriminate].
+    destruct (find_meth_bwd cd c m d' Ec (new_methods_unused _ _ Hn) (fun b => new_methods_unused b _ Hn) Em')
+      as [d [on [Em [-> [Hok Hu]]]]].
+    rewrite Em. cbn in H. destruct (m_static d); [discriminate|].
+    eapply run_body_bsim; eauto.
   Qed.
 
   Lemma call_static_bsim ex' ex : bsim_ex ex' ex ->
@@ -273,7 +298,7 @@ Section Rev.
   Proof.
     intros He Hc H. unfold call_method in H. rewrite (Hchk He _ _ Hc) in H. unfold P' in H at 1.
     rewrite find_c_tP in H. destruct (enc_facts k P Hside He) as [cd [Hcd _]]. rewrite Hcd in H. cbn [option_map] in H.
-    destruct (find_getter k P Hside cd He Hcd) as [G _]. rewrite G in H.
+    destruct (find_getter_meth k P Hside cd He Hcd) as [G _]. fold P' in G. rewrite G in H.
     change (run_code (exec chk P' q) [k_self k] [SReturn (EAttr false (EVar (k_self k)) (k_fld k))] [o] s1 = Done r) in H.
     eapply getter_run_inv; eassumption.
   Qed.
@@ -285,7 +310,7 @@ Section Rev.
     intros He Hc H. unfold call_method in H. rewrite (Hchk He _ _ Hc) in H. unfold P' in H at 1.
     rewrite find_c_tP in H. destruct (enc_facts k P Hside He) as [cd [Hcd [_ [_ [_ [SV _]]]]]].
     rewrite Hcd in H. cbn [option_map] in H.
-    destruct (find_getter k P Hside cd He Hcd) as [_ S0]. rewrite S0 in H.
+    destruct (find_getter_meth k P Hside cd He Hcd) as [_ S0]. fold P' in S0. rewrite S0 in H.
     change (run_code (exec chk P' q) [k_self k; k_value k]
               [SWrite false (EVar (k_self k)) (k_fld k) (EVar (k_value k))] [o; v] s1 = Done r) in H.
     eapply setter_run_inv; eassumption.
